@@ -84,6 +84,13 @@ Theorem C11_score_uses_current_params :
   score_core "Kauri" = Some (doc_score_kauri, []).
 Proof. exact score_uses_current_params. Qed.
 
+(* fit_predict(X, y) of every estimator (Kauri included) is fit(X, y).labels_ : the precomputed matrix
+   passed as y reaches fit unchanged through this entry point too.  (Regenerated from the bodies.) *)
+Theorem C11_fit_predict_forwards_matrix :
+  (forall cls d, In (cls, d) documented -> fit_predict_term classes cls = Some (doc_fit_predict, [])) /\
+  fit_predict_term classes "Kauri" = Some (doc_fit_predict, []).
+Proof. exact fit_predict_forwards_matrix. Qed.
+
 (* KernelRIM's kernel between new and training points *)
 Theorem C11_kernelrim_dispatch : forall bk bkp,
   (forall f, bk = VCallable f -> kernelrim_dispatch bk bkp = CallUser f) /\
@@ -162,6 +169,7 @@ Print Assumptions C11_registry_table.
 Print Assumptions C11_affinity_dispatch.
 Print Assumptions C11_training_affinity.
 Print Assumptions C11_score_uses_current_params.
+Print Assumptions C11_fit_predict_forwards_matrix.
 Print Assumptions C11_kernelrim_dispatch.
 Print Assumptions C11_kauri_dispatch.
 Print Assumptions C11_kauri_missing_matrix_refuted.
